@@ -70,6 +70,81 @@ claim('C17', 'other',
       "definite-initialisation and copy-coverage rules over record/constructor facts + call-graph reachability",
       "DESIGN.md section 4 C17")
 
+claim('C01', 'other',
+      "Typestate proof by induction over API calls: a forward abstract interpretation (must-equalities + constants + observer "
+      "automaton) of every entry point that can reach a dispatcher (update, react, immediate*, replay*, load, enter/exit, "
+      "constructors, destructor; both activation modes; all witness machines) shows enter/exit/reenter pairing, root before/"
+      "after, dispatch only to the active state and the activity invariant at return; who-may-call and who-may-write rules "
+      "close the induction; no control flavour can write the registry.",
+      "Assumes A1-A3 (callbacks act only through their control, do not re-enter the API, preconditions respected). Machine "
+      "size is abstracted by the dispatch primitive, whose correctness for every size is C14.",
+      "finite-domain abstract interpretation (typestate) + call-graph / effect-set rules",
+      "DESIGN.md section 4 C01")
+
+claim('C02', 'other',
+      "Effect rules: request writers only overwrite core.request and cannot reach processing; registry.requested is fed from a "
+      "request only in the guarded loops. Order rules: processing last. Must-equality dataflow through processRequest / "
+      "initialEnter: the state entered/re-entered is the destination of the transition shown to enter() as current, which is a "
+      "whole copy of the pending transition of a round whose guards did not cancel; nothing survives => no callback, same active "
+      "state; requested is invalid at return. Comparison-domain evaluation of the de-duplication test.",
+      "Assumes A1-A3; guards are unknown booleans, callbacks havoc exactly the computed effect set of their control flavour.",
+      "effect sets + CFG order rules + must-equality abstract interpretation + comparison-domain evaluation",
+      "DESIGN.md section 4 C02")
+
+claim('C03', 'other',
+      "Guard rounds interpreted with both outcomes at every guard: exit guard first on the active state, entry guard on the "
+      "requested state, nothing consulted after a cancellation, fresh guard control per round bound to (current, pending), "
+      "acceptance only on the not-cancelled edge; guard evaluation cannot reach enter/exit/reenter nor write the registry; "
+      "replay/load never reach guards; the wrappers' return expression is checked on its truth table.",
+      "Assumes A1-A3.",
+      "abstract interpretation with observer automaton + call-graph reachability + truth-table evaluation",
+      "DESIGN.md section 4 C03")
+
+claim('C04', 'other',
+      "Counted-loop rule on both substitution loops (bound == configured limit for limits 1,2,3,4,255; single increment; one "
+      "guard round per iteration; 8-bit counter cannot wrap), acyclic call graph, every other loop classified, end state at "
+      "the limit covered by the C02.d/C01.a interpretation (loop exit edge with a request still outstanding), leftover request "
+      "only consumable through the guarded loops.",
+      "Termination of the plan-list walks rests on list integrity (C10 residue).",
+      "loop classification over the AST + call-graph acyclicity + abstract interpretation",
+      "DESIGN.md section 4 C04")
+
+claim('C05', 'other',
+      "Order rules (dominance / post-dominance / exactly-once) on R_::update/react/query, every C_::deep<phase>, every CS_ "
+      "dispatcher and S_ wrapper: phases once each in the prescribed order, head/sub-state order per phase, dispatch on "
+      "registry.active read at phase start, processRequest last; effect rules: phases cannot reach guards/enter/exit nor write "
+      "the registry, event handed on by reference at every level, query() const and effect-free.",
+      "Assumes A1-A3. All machine sizes through C14.",
+      "CFG order rules + effect sets over resolved callees",
+      "DESIGN.md section 4 C05")
+
+claim('C06', 'other',
+      "Scoped-origin rule on every S_ wrapper (constructed from (control, STATE_ID) before and destroyed after the user code), "
+      "accessor return paths, constructor reference bindings of every control to the instance core, role tracking of the "
+      "pending/current transition objects into _pendingTransition/_currentTransition, exhaustive comparison-domain evaluation of "
+      "every isActive(id) against active == id, request writers record _originId.",
+      "Assumes A2. The comparison-domain evaluation is exhaustive because the checker first verifies the predicates only compare.",
+      "CFG order rules + reference-binding facts + finite comparison-domain evaluation",
+      "DESIGN.md section 4 C06")
+
+claim('C11', 'other',
+      "Writers of previousTransition are the expected ones; at return of every processing entry point the history equals the "
+      "accepted transition field by field and names the active state (must-equality dataflow); replayTransition/replayEnter "
+      "enter exactly the replayed destination without guards and record it; replayTransition(invalid) returns false with no "
+      "dispatch; copy/move constructors copy the history.",
+      "Assumes A1-A3.",
+      "effect sets + must-equality abstract interpretation + call-graph reachability",
+      "DESIGN.md section 4 C11")
+
+claim('C20', 'other',
+      "Decides named structural clauses: get/set/clear agree on unit = i div 8, mask = 1 << (i mod 8) and apply the right "
+      "operator; the representation invariant 'bits >= CAPACITY are zero' is established by the constructor/clear() and "
+      "preserved by every mutator (each storage write classified); whole-array operations cover the full extent; array "
+      "accessor / iteration / emplace shapes. Equivalence with the mathematical model over all operation sequences is NOT decided.",
+      "Unrecognised shapes are reported as analysis-broken (exit 2), not as violations.",
+      "sibling agreement of normalised expression trees + invariant classification + loop-extent rules",
+      "DESIGN.md section 4 C20")
+
 ALL = ['C%02d' % i for i in range(1, 21)]
 for p in ALL:
     if p not in CLAIMED:
